@@ -34,14 +34,14 @@ type c06Case struct {
 }
 
 // c06Directives are the parameters the control-flow function of every C06
-// program may carry; the "directive" edit moves to the next one. The last
-// entry asks for trash blocks, which garble builds from the functions of the
-// package's dependencies.
+// program may carry; the "directive" edit moves to the next one. Trash blocks
+// are left out: garble builds them from functions of the package's
+// dependencies and rejects the build when those come from the cache (see
+// DESIGN.md 10.2, "observed"), which C11 tallies as a rejection.
 var c06Directives = []string{
 	"flatten_passes=1 junk_jumps=2 block_splits=1",
 	"flatten_passes=2 flatten_hardening=xor,delegate_table",
 	"block_splits=max junk_jumps=4",
-	"flatten_passes=1 junk_jumps=1 trash_blocks=4",
 }
 
 func c06CFFile(pkg string, dir int) string {
@@ -53,7 +53,7 @@ var c06LdValues = []string{"one", "two words", "k=v", ""}
 // c06Cfgs are the configurations a history may visit; each has a config base,
 // and the shared cache starts as the union of all of them (so that a step
 // costs seconds instead of a std rebuild).
-var c06Cfgs = []string{"default", "tiny", "literals", "seed", "literals+tiny", "ctrlflow", "modonly"}
+var c06Cfgs = []string{"default", "tiny", "literals", "seed", "literals+tiny", "ctrlflow", "modonly", "gg1", "gg2"}
 
 func c06Config(name string) h.Config {
 	switch name {
@@ -61,19 +61,34 @@ func c06Config(name string) h.Config {
 		return h.Config{Seed: fixedSeeds[1]} // 12 bytes
 	case "seed3":
 		return h.Config{Seed: "c2VlZHNlZWRYWFhY"} // 12 bytes, the first 8 equal to seed2's
+	case "gg1":
+		// two pattern lists over sibling packages whose paths share a string prefix (alpha / alphabet)
+		return h.Config{GOGARBLE: c06Mod + "/alpha"}
+	case "gg2":
+		return h.Config{GOGARBLE: c06Mod + "/alpha," + c06Mod + "/alphabet"}
 	}
 	return configByName(name, 0)
 }
 
-// mergedBox builds a box whose caches are the union of the config bases.
-func mergedBox(parent string) *h.Box {
+// c06Mod and the directories alpha / alphabet are fixed for C06 programs, so that GOGARBLE
+// lists can name individual packages.
+const c06Mod = "zqsimple"
+
+// mergedBox builds a box whose caches are the union of the config bases of
+// the configurations the history visits (nil = all of c06Cfgs).
+func mergedBox(parent string, visited map[string]bool) *h.Box {
 	bin, hash := h.GarbleBinary()
 	root, err := os.MkdirTemp(parent, "shared-")
 	h.Must(err)
 	b := h.NewBox(root, bin)
-	for i, name := range c06Cfgs {
+	first := true
+	for _, name := range c06Cfgs {
+		if visited != nil && !visited[name] && name != "default" {
+			continue
+		}
 		base := h.ConfigBase(bin, hash, c06Config(name), h.LevelStd)
-		if i == 0 {
+		if first {
+			first = false
 			b.FillBox(base)
 			continue
 		}
@@ -135,7 +150,13 @@ func c06Run(c c06Case) (v *verdict, labels []string, pattern string, nontrivial 
 	st.files["zq_tag_off.go"] = "//go:build !zqtag\n\npackage main\n\nfunc init() { println(\"tag off\") }\n"
 	src := filepath.Join(dir, "src")
 	h.WriteFiles(src, st.files)
-	shared := mergedBox(dir)
+	visited := map[string]bool{}
+	for _, s := range c.Steps {
+		if s.Op == "build" {
+			visited[s.Cfg] = true
+		}
+	}
+	shared := mergedBox(dir, visited)
 	refs := map[string][2]string{} // key -> sha, output
 	var hist []string
 	var pat []string
@@ -274,6 +295,8 @@ func TestC06(t *testing.T) {
 		var c c06Case
 		c.Spec = progen.Draw(t, progen.Options{MinPkgs: 3, MaxPkgs: 3, MinFeats: 2, MaxFeats: 5, NoExit: true})
 		c.Spec.Args = nil
+		c.Spec.ModPath = c06Mod
+		c.Spec.Pkgs[1].Dir, c.Spec.Pkgs[2].Dir = "alpha", "alphabet"
 		c.CF = rapid.IntRange(0, len(c06Directives)-1).Draw(t, "cf")
 		n := rapid.IntRange(4, rc.Pick(6, 10)).Draw(t, "nsteps")
 		for i := 0; i < n; i++ {
@@ -282,7 +305,7 @@ func TestC06(t *testing.T) {
 			if i == 0 {
 				s.Op = "build"
 			}
-			s.Cfg = rapid.SampledFrom([]string{"default", "default", "tiny", "tiny", "literals", "literals", "seed", "seed2", "seed2", "seed3", "seed3", "literals+tiny", "ctrlflow", "ctrlflow", "ctrlflow", "modonly", "modonly"}).Draw(t, "cfg")
+			s.Cfg = rapid.SampledFrom([]string{"default", "default", "tiny", "tiny", "literals", "literals", "seed", "seed2", "seed2", "seed3", "seed3", "literals+tiny", "ctrlflow", "ctrlflow", "ctrlflow", "modonly", "modonly", "gg1", "gg1", "gg2", "gg2"}).Draw(t, "cfg")
 			s.Tag = rapid.IntRange(0, 3).Draw(t, "tag") == 0
 			s.LdX = rapid.IntRange(-2, 3).Draw(t, "ldx")
 			if s.LdX < -1 {
@@ -295,10 +318,10 @@ func TestC06(t *testing.T) {
 		// two long seeds with a common 8-byte prefix are only interesting together:
 		// when one of them was drawn, a later build uses its sibling
 		for i := range c.Steps {
-			if c.Steps[i].Op != "build" || (c.Steps[i].Cfg != "seed2" && c.Steps[i].Cfg != "seed3") {
+			sibling := map[string]string{"seed2": "seed3", "seed3": "seed2", "gg1": "gg2", "gg2": "gg1"}[c.Steps[i].Cfg]
+			if c.Steps[i].Op != "build" || sibling == "" {
 				continue
 			}
-			sibling := map[string]string{"seed2": "seed3", "seed3": "seed2"}[c.Steps[i].Cfg]
 			for j := i + 1; j < len(c.Steps); j++ {
 				if c.Steps[j].Op == "build" {
 					c.Steps[j].Cfg = sibling
